@@ -5,6 +5,8 @@ import Driver.CpuKinds
 import Driver.MemAttrs
 import Driver.TypeStr
 import Driver.History
+import Driver.Diff
+import Driver.Bind
 open Driver
 
 def main (args : List String) : IO UInt32 := do
@@ -31,6 +33,12 @@ def main (args : List String) : IO UInt32 := do
     return 0
   | ["history"] =>
     lineLoop stdin stdout ({} : HistoryEng.St) HistoryEng.step
+    return 0
+  | ["diff"] =>
+    lineLoop stdin stdout DiffEng.init DiffEng.step
+    return 0
+  | ["bind"] =>
+    lineLoop stdin stdout BindEng.init BindEng.step
     return 0
   | _ =>
     IO.eprintln "usage: hwmodel <engine>"
